@@ -1333,8 +1333,11 @@ func (t *State) processUnconfirmTxs(block *pb.InternalBlock, batch kvdb.Batch, n
 			localVersion := xmodel.MakeVersion(txInputExt.RefTxid, txInputExt.RefOffset)
 			remoteVersion := keysVersionInBlock[string(bucketAndKey)]
 			if localVersion != remoteVersion && remoteVersion != "" {
-				txidInVer := xmodel.GetTxidFromVersion(remoteVersion)
-				if _, known := unconfirmTxMap[string(txidInVer)]; known {
+				// the cited version is still ahead of the block only if it was written by a
+				// pool transaction that this block does not contain; a version written
+				// before (or by) the block has just been superseded by the block
+				txidInVer := xmodel.GetTxidFromVersion(localVersion)
+				if _, known := unconfirmTxMap[string(txidInVer)]; known && !txidsInBlock[string(txidInVer)] {
 					continue
 				}
 				t.log.Warn("inputs version conflict", "key", bucketAndKey, "localVersion", localVersion, "remoteVersion", remoteVersion)
